@@ -2556,6 +2556,14 @@ def const_header : List Nat :=
 /-- sha256 of the printed source of ParseVector (/repo/40/cvss40.go:30:1) -/
 def srchash_ParseVector : String := "dfc7cca31e261b97"
 
+/-- `init` functions of the package (file:init) -/
+def pkg_inits : List String :=
+  []
+
+/-- build constraints on non-test source files other than the verification hooks (file:constraint) -/
+def pkg_build_tags : List String :=
+  []
+
 /-- package-level variables (name:type) -/
 def pkg_vars : List String :=
   ["ErrInvalidCVSSHeader:error", "ErrInvalidMetricOrder:error", "ErrInvalidMetricValue:error", "ErrOutOfBoundsScore:error", "ErrTooShortVector:error", "highestSeverityVectors:[][][]int", "highestSeverityVectorsEQ3EQ6:[][][]int", "order:[][]string", "sevIdx:[][]uint8"]
